@@ -301,7 +301,11 @@ def dataclass(  # noqa: C901,D417 # pylint: disable=function-redefined,too-many-
         raise ValueError('The namespace cannot be an empty string.')
 
     cls = dataclasses.dataclass(cls, **kwargs)  # type: ignore[assignment]
+    return _register_dataclass(cls, namespace=namespace)  # type: ignore[return-value]
 
+
+def _register_dataclass(cls: _TypeT, /, *, namespace: str) -> _TypeT:
+    """Register a class decorated by :func:`dataclasses.dataclass` as a PyTree node type."""
     children_fields = {}
     metadata_fields = {}
     for f in dataclasses.fields(cls):
@@ -458,6 +462,7 @@ def make_dataclass(  # type: ignore[no-redef] # noqa: C901,D417
         **dataclass_kwargs,  # type: ignore[arg-type]
         **make_dataclass_kwargs,  # type: ignore[arg-type]
     )
-    dataclass_kwargs.pop('slots', None)  # already defined in `make_dataclass()`
-    dataclass_kwargs.pop('weakref_slot', None)  # already used in `make_dataclass()`
-    return dataclass(cls, **dataclass_kwargs, namespace=namespace)  # type: ignore[call-overload]
+    # NOTE: `dataclasses.make_dataclass()` has already applied the dataclass decorator with all the
+    # options. Decorating the class a second time would rebuild its fields from the bare annotations
+    # (dropping `field(...)` settings such as `pytree_node`, `init`, and `default_factory`).
+    return _register_dataclass(cls, namespace=namespace)
